@@ -715,6 +715,14 @@ Theorem c12_source_provider_users : src_provider_users = canon_provider_users.
 Proof. exact src_provider_users_ok. Qed.
 Print Assumptions c12_source_provider_users.
 
+(* the CFI attempt of get_caller_frame, every architecture: one provider call — walk_frame on the module covering the callee
+   frame's instruction (nothing is asked when no module covers it) *)
+Theorem c12_source_cfi_calls : src_cfi = canon_cfi /\ src_cfi_x86 = cfi_of x86_name src_cfi /\ src_cfi_module = CfiModuleOfCalleeInstruction /\
+  forall a ops k, In (a, ops) src_cfi -> cfi_lookups ops src_cfi_module (Some k) = [(EWalk, k)] /\
+                                         cfi_lookups ops src_cfi_module None = [].
+Proof. exact src_cfi_ok. Qed.
+Print Assumptions c12_source_cfi_calls.
+
 (* for EVERY dump shape (any number of threads, frames, modules; any lookups of the unwinder, symbol lookups only), every
    supplier script and enough fuel: the executor that polls the join_all only when its waker fired finishes (never
    "nobody woken") after at most [work] root polls; the first stats read is empty; every module of every frame — and
